@@ -418,13 +418,13 @@ Fixpoint has_group_loop (fuel : nat) (items : list value) (i : Z) (group_uuid : 
   match fuel with
   | O => NoFuel
   | S fuel' =>
-    if negb (i <? zlen items)%Z then Ret (VObject None [])          (* FalseResult *)
+    if negb (i <? zlen items)%Z then Ret (VObject (Some (VBool false)) [(t_match, VText [])])     (* FalseResult *)
     else match go_index items i with
          | None => Panic PBounds
          | Some item =>
              do group <- to_object item;
              do uuid <- to_text (match obj_get (snd group) t_uuid with Some v => v | None => VNil end);
-             if text_eqb uuid group_uuid then Ret (VObject None [(t_match, item)])
+             if text_eqb uuid group_uuid then Ret (VObject (Some (VBool true)) [(t_match, VObject (fst group) (snd group))])  (* NewTrueResult(group) *)
              else has_group_loop fuel' items (i + 1) group_uuid
          end
   end.
